@@ -334,6 +334,10 @@ def units(tier, seed):
     for (L, K) in ([(2, 1)] if tier == 'quick' else ECON_BOUNDS[tier]):
         us.append(dict(econ_cfg(L, K, 'cogen-topping'), all_products=True))
         us.append(dict(c04.cfg_of('electricity', L, K, False, addon=1), harness='econ'))
+    # the closed-loop family has its own copy of the schedule / incentive code (SBTEconomics.Calculate)
+    from . import c03
+    for K in ((1,) if tier == 'quick' else (1, 2)):
+        us.append(dict({k: v for k, v in c03.sbt_cfg({}, K=K).items() if k != 'flags'}, harness='econ'))
     return us
 
 
